@@ -22,6 +22,9 @@ PARTIAL = [
     "the code: C18_records_bounded_except_known excludes the reserved class, C18_push_promises_unbounded_refuted / "
     "C18_interim_responses_unbounded_refuted give for every n a peer sequence reaching n; the two corpus replays are re-run on every check "
     "and reported as KNOWN-FINDING;",
+    "known finding KF-C19-3 (C19) adds a third unbounded class: closed records leaked by the eviction from pending_capacity (one per stream "
+    "reset while it waited for connection capacity) stay in the store for the rest of the connection; the classification puts them into the "
+    "same excluded bucket as the reserved streams (witness on the record model: C19_known_evict_refuted);",
     "modelled-not-verified: CONTINUATION / header-list limits of framed_read.rs (calc_max_continuation_frames, abuse multiplier) and the "
     "single-slot PING / SETTINGS acknowledgements (C14_ack_exactly_once) are only exercised by the abuse profile (observed: GOAWAY "
     "too_many_continuations / header_list_way_too_large; owed replies of unheld records and queue lengths measured in observed_maxima); "
